@@ -56,7 +56,7 @@ def _PIN_IN(e, st, c, text):
 
 
 TOK_AT = "index is not None and 0 <= index and index < len(words) and isinstance(words[index], {cls})"
-EDITIONS_WF = ("typed(words[index], 'obj<CitationToken>').exact_editions is not None and typed(words[index], 'obj<CitationToken>').variation_editions is not None "
+EDITIONS_WF = ("typed(words[index], 'obj<CitationToken>').groups is not None and typed(words[index], 'obj<CitationToken>').exact_editions is not None and typed(words[index], 'obj<CitationToken>').variation_editions is not None "
                "and forall(lambda i: implies(0 <= i and i < len(typed(words[index], 'obj<CitationToken>').exact_editions), typed(words[index], 'obj<CitationToken>').exact_editions[i] is not None and typed(words[index], 'obj<CitationToken>').exact_editions[i].reporter is not None)) "
                "and forall(lambda i: implies(0 <= i and i < len(typed(words[index], 'obj<CitationToken>').variation_editions), typed(words[index], 'obj<CitationToken>').variation_editions[i] is not None and typed(words[index], 'obj<CitationToken>').variation_editions[i].reporter is not None))")
 
